@@ -139,3 +139,36 @@ theorem filterMapM_ok_map {α β γ ε : Type} {f : α → Except ε (Option β)
     rw [List.filterMap_cons, ← this, List.map_append, ih hbs (fun x hx => hg x (by simp [hx]))]
     cases ob <;> rfl
 end WgslVerif
+
+namespace WgslVerif
+/-- projecting a successful `mapM` -/
+theorem mapM_ok_map_eq {α β γ ε : Type} {f : α → Except ε β} {p : β → γ} {q : α → γ} :
+    ∀ {l : List α} {r : List β}, l.mapM f = .ok r → (∀ a ∈ l, ∀ b, f a = .ok b → p b = q a) →
+      r.map p = l.map q := by
+  intro l
+  induction l with
+  | nil => intro r h _; rw [List.mapM_nil] at h; injection h with h; subst h; rfl
+  | cons a l ih =>
+    intro r h hq
+    obtain ⟨b, bs, hb, hbs, e⟩ := mapM_ok_cons h
+    subst e
+    rw [List.map_cons, List.map_cons, hq a (by simp) b hb, ih hbs (fun x hx => hq x (by simp [hx]))]
+end WgslVerif
+
+namespace WgslVerif
+theorem filterMapM_ok_length {α β ε : Type} {f : α → Except ε (Option β)} {p : α → Bool} :
+    ∀ {l : List α} {r : List β}, l.filterMapM f = .ok r →
+      (∀ a ∈ l, ∀ ob, f a = .ok ob → ob.isSome = p a) → r.length = (l.filter p).length := by
+  intro l
+  induction l with
+  | nil => intro r h _; rw [List.filterMapM_nil] at h; injection h with h; subst h; rfl
+  | cons a l ih =>
+    intro r h hp
+    obtain ⟨ob, bs, hb, hbs, e⟩ := filterMapM_ok_cons h
+    subst e
+    have := hp a (by simp) ob hb
+    rw [List.length_append, ih hbs (fun x hx => hp x (by simp [hx])), List.filter_cons]
+    cases ob with
+    | none => simp at this; simp [this]
+    | some b => simp at this; simp [this]; omega
+end WgslVerif
